@@ -34,6 +34,8 @@ HX void hx_singleton(uint64_t nthreads) {
    vs_assert(ctor_count == 1, "singleton object is constructed exactly once");
    vs_assert(got[0] != nullptr && got[0] == got[1], "all threads get the same singleton object");
 }
+// sequential first and second access (candidate detection for shared static state of the singleton template)
+HX void hx_singleton_seq(uint64_t) { got[0] = &Obj::instance(); got[1] = &Obj::instance(); }
 // managed thread: worker runs the user function, an observer thread started after the constructor returned samples it
 HX void hx_managed(uint64_t) {
    vs_mt_shared(&started, sizeof started); vs_mt_shared(&finished, sizeof finished); vs_mt_shared(mt_storage, sizeof mt_storage);
@@ -63,6 +65,8 @@ void use_handler(int which) {
       ah.addArgument("v,values", DEST_VAR(v), "values")->setListSep(which ? ';' : ',');
       ah.addArgument("n,number", DEST_VAR(n), "number")->addCheck(range(1, 100));
       ah.addArgument("f,flag", DEST_VAR(f), "flag")->addConstraint(requiresArg("n"));
+      // handler-level constraints over different argument lists in the two threads
+      if (which) ah.addConstraint(all_of("n;v")); else ah.addConstraint(all_of("f;n"));
       char a0[] = "prog", a1[] = "-f", a2[] = "-n", a3[] = "42", a4[] = "-v"; char a5a[] = "1,2,3", a5b[] = "1;2;3";
       char* argv[] = {a0, a1, a2, a3, a4, which ? a5b : a5a, nullptr};
       ah.evalArguments(6, argv);
